@@ -42,6 +42,8 @@ func TestVerif(t *testing.T) {
 		verifWire(p, r)
 	case "C10.fuzz":
 		verifWireFuzz(p, r)
+	case "C16.wire":
+		verifProposerStamp(p, r)
 	default:
 		t.Fatalf("unknown part %s", p.Part)
 	}
